@@ -2,6 +2,7 @@
 import json, os, sys, time, re
 
 VERIF = os.path.dirname(os.path.dirname(os.path.abspath(__file__)))
+EVDIR = os.environ.get('VERIF_EVIDENCE') or os.path.join(VERIF, 'evidence')     # VERIF_EVIDENCE: development only (scratch runs must not touch the committed evidence)
 
 TRUSTED_BASE = [
     "rustc nightly front/middle end: MIR construction at -Zmir-opt-level=0, instance resolution, const evaluation of statics",
@@ -64,7 +65,7 @@ class Report:
                 known_hit.append((k, v))
             else:
                 real.append(v)
-        vdir = os.path.join(VERIF, 'evidence', 'violations')
+        vdir = os.path.join(EVDIR, 'violations')
         os.makedirs(vdir, exist_ok=True)
         # remove stale replay files of this property
         for f in os.listdir(vdir):
@@ -109,8 +110,8 @@ class Report:
             'wall_s': round(wall, 2),
             'violations': len(real),
         }
-        os.makedirs(os.path.join(VERIF, 'evidence'), exist_ok=True)
-        with open(os.path.join(VERIF, 'evidence', self.pid + '.json'), 'w') as f:
+        os.makedirs(EVDIR, exist_ok=True)
+        with open(os.path.join(EVDIR, self.pid + '.json'), 'w') as f:
             json.dump(ev, f, indent=1)
         print('%s: %d obligations, %d discharged, %d known findings, %d violations, %.1fs [%s]' % (
             self.pid, self.obligations, self.discharged, len(known_hit), len(real), wall, self.tier))
